@@ -59,8 +59,13 @@ func doReq[T any](cfg *gconfig.Config, op, key string) (out string) {
 		return renderTyped(any(v))
 	case "must":
 		return renderTyped(any(gconfig.MustGet[T](cfg, key)))
-	case "ordef":
+	case "ordef", "ordefnz":
 		var def T
+		if op == "ordefnz" {
+			// a NON-ZERO default (every field, element and entry set): whatever GetOrDefault does with
+			// the default must not show in this or any later result for the key
+			def = nonZero[T]()
+		}
 		v := gconfig.GetOrDefault[T](cfg, key, def)
 		// GetOrDefault hides the error: compare through Get's classification
 		if _, err := gconfig.Get[T](cfg, key); err != nil {
@@ -69,6 +74,54 @@ func doReq[T any](cfg *gconfig.Config, op, key string) (out string) {
 		return renderTyped(any(v))
 	}
 	return "bad-op"
+}
+
+// nonZero builds a value of T with nothing left at its zero value (numbers 7, strings "dflt",
+// true, one-element slices and maps, every struct field set, non-nil pointers).
+func nonZero[T any]() T {
+	var v T
+	fillNonZero(reflect.ValueOf(&v).Elem(), 0)
+	return v
+}
+
+func fillNonZero(v reflect.Value, depth int) {
+	if depth > 4 || !v.CanSet() {
+		return
+	}
+	switch v.Kind() {
+	case reflect.Bool:
+		v.SetBool(true)
+	case reflect.Int, reflect.Int8, reflect.Int16, reflect.Int32, reflect.Int64:
+		v.SetInt(7)
+	case reflect.Uint, reflect.Uint8, reflect.Uint16, reflect.Uint32, reflect.Uint64:
+		v.SetUint(7)
+	case reflect.Float32, reflect.Float64:
+		v.SetFloat(7.5)
+	case reflect.String:
+		v.SetString("dflt")
+	case reflect.Pointer:
+		p := reflect.New(v.Type().Elem())
+		fillNonZero(p.Elem(), depth+1)
+		v.Set(p)
+	case reflect.Slice:
+		s := reflect.MakeSlice(v.Type(), 1, 1)
+		fillNonZero(s.Index(0), depth+1)
+		v.Set(s)
+	case reflect.Map:
+		m := reflect.MakeMap(v.Type())
+		k := reflect.New(v.Type().Key()).Elem()
+		fillNonZero(k, depth+1)
+		e := reflect.New(v.Type().Elem()).Elem()
+		fillNonZero(e, depth+1)
+		m.SetMapIndex(k, e)
+		v.Set(m)
+	case reflect.Struct:
+		for i := 0; i < v.NumField(); i++ {
+			fillNonZero(v.Field(i), depth+1)
+		}
+	case reflect.Interface:
+		v.Set(reflect.ValueOf("dflt"))
+	}
 }
 
 // two DISTINCT types that print the same name (`main.settings`): function-local types of
@@ -187,6 +240,11 @@ var (
 )
 
 func wantOf(docBytes []byte, op, key, ty string) string {
+	if op == "ordefnz" {
+		// when the key resolves, GetOrDefault's value is Get's value on a fresh config, whatever the
+		// default was; when it does not, both are classified "err"
+		op = "get"
+	}
 	k := string(docBytes) + "\x00" + op + "\x00" + key + "\x00" + ty
 	wantMu.Lock()
 	w, ok := wantMemo[k]
@@ -247,7 +305,7 @@ func (g *gcImpl) execCache(ws []string) (string, bool) {
 				for j := 0; j < 60; j++ {
 					key := c10Keys[rng.Intn(len(c10Keys))]
 					ty := typeNames[rng.Intn(len(typeNames))]
-					op := []string{"get", "must", "ordef"}[rng.Intn(3)]
+					op := []string{"get", "must", "ordef", "ordefnz"}[rng.Intn(4)]
 					got := typeTable[ty](g.cfg, op, key)
 					want := wantOf(g.bytes, op, key, ty)
 					if got != want {
@@ -345,7 +403,7 @@ func runC10(f *hx.Flags) {
 			if key == "" {
 				key = "s"
 			}
-			op := []string{"get", "must", "ordef"}[r.Rng.Intn(3)]
+			op := []string{"get", "must", "ordef", "ordefnz"}[r.Rng.Intn(4)]
 			want := wantOf(fresh.bytes, op, key, ty)
 			lines = append(lines, "gc req "+op+" "+esc(key)+" "+ty+" "+want)
 			if seen[key+"|"+ty] {
